@@ -4,6 +4,12 @@ import json, subprocess
 
 CLAIMED = {
  # id: (design_ref, level text, level note)
+ "C01": ("DESIGN.md 4/C01",
+   "Proof of function contracts: isHandledBuiltinCall is true exactly for *ssa.Builtin values with a handled name (and error.Error()), never for a user function that merely has a builtin's name; doBuiltinCall transfers whenever the call was declared handled and moves every argument of min/max/complex/len/real/imag/wrapnilchk, append and copy as the property requires; shared with C08: summary edges for every return index and every argument position. The end-to-end theorem (every explicit source-to-sink flow is reported) is not proved.",
+   "Trusted: as C05 plus SSA lowering facts stated as preconditions (append/complex have two operands). Not decided: visitor dispatch, global stores through IndexAddr (anticipated finding, not yet under contract), soundness of the composition."),
+ "C04": ("DESIGN.md 4/C04",
+   "Proof of function contracts: a code identifier with compiled regexes has all of them compiled (compileRegexes / compileRegexOrLiteral never store nil), the matcher never dereferences nil and its result is exactly the conjunction, field by field, of `reference field empty or its own regex matches` plus Kind equality (both the regex and the literal branch); builtin-name shadowing obligation shared with C01. Callee resolution through points-to sets is not covered.",
+   "Trusted: as C05; assumed contracts of regexp.Compile/MustCompile/MatchString (deps.spec); the Interface field clause is outside the claim (cidRef.Interface == \"\")."),
  "C05": ("DESIGN.md 4/C05",
    "Proof of function contracts: FnReadsFrom returns true for every operand slot of every ssa.Instruction kind (slots extracted from go/ssa's Operands methods) except the pure write destinations, FnWritesTo for exactly those; loop invariants and callee contracts discharged by SMT for all inputs. The whole-program theorem (equal verdicts for every option combination) is not proved.",
    "Trusted: go/ssa SSA construction, govc VC generator, SMT solvers, closed world of ssa.Instruction/ssa.Value implementers, SSA objects not mutated by callees. Not decided: pkg-filter/report/log options, visitor-level equality of results."),
@@ -13,9 +19,15 @@ CLAIMED = {
  "C08": ("DESIGN.md 4/C08",
    "Proof of function contracts: every Do* method of the intra-procedural analysis transfers the marks of each data operand of its instruction kind to the result (quantified over the index for Phi edges and Select states); simpleTransfer/transfer delegate with the same arguments; addReturnEdge adds the edge for every in-range tuple index and never indexes out of range; addCallArgEdge adds the edge to every argument position of every callee node holding the value (map iteration in arbitrary order); FindArg's contract. The composition (markValue alias recursion, worklist fixpoint) is not proved.",
    "Trusted: as C05; assumed frame of (*SummaryGraph).addEdge (modifies only edge records). Not decided: Pre/mergeInto join, RunForwardIterative closure, makeEdgesAt* coverage."),
+ "C14": ("DESIGN.md 4/C14",
+   "Proof of function contract: escape.instructionLocality returns, for every memory-accessing instruction kind (store, load through any pointer type incl. named ones, channel receive/send, map update/lookup/range/next, type assertion, select), exactly the verdict of derefsAreLocal on the node of the accessed operand, and never classifies an unknown instruction kind as local; EscapeGraph.nodes is immutable after construction (checked frame scan). Soundness of the escape graph w.r.t. executions and schedules is not proved.",
+   "Trusted: as C05; assumed contract of NodeGroup.ValueNode (returns the node of the value). Known finding 5.12 (by-value struct arguments not mapped into callee context) is not yet under contract."),
  "C18": ("DESIGN.md 4/C18",
    "Proof of function contract: reachability's instruction visitor calls visit on every operand slot of every instruction kind (quantified over the index for variadic slots; loop invariants inferred Houdini-style and checked). Whole-program conservativeness w.r.t. executions is not proved.",
    "Trusted: as C05; assumed contract (*ssa.Call).Common() == &c.Call etc. (deps.spec). Excepted slots: MultiConvert.X, SliceToArrayPointer.X, Defer.DeferStack (cannot hold function values)."),
+ "C19": ("DESIGN.md 4/C19",
+   "Proof of function contracts: for an arbitrary go instruction of an arbitrary function of the (arbitrarily ordered) input map, findGoFunctions records the launched function when it is a static function or a closure over one (triple nested loop, map iteration modelled as arbitrary order); addGoFunction appends the position and changes no other entry (frame proved). The two remaining launch forms are known findings. The link to run-time crash traces is not proved.",
+   "Trusted: as C05. Known findings: invoke-mode and function-value go statements (DESIGN 5.10)."),
 }
 
 NA = {
